@@ -184,6 +184,16 @@ func init() {
 			maxN = 4
 			docs = append(docs, "- a\n  - b\n  - c\n  - d\n  - e\n  - f\n  - g\n  - h\n")
 		}
+		// a document whose output is larger than the usual I/O buffers (4096 bytes): failures of late writes
+		{
+			var sb strings.Builder
+			sb.WriteString("- big\n")
+			for i := 0; i < 170; i++ {
+				fmt.Fprintf(&sb, "  - child-%03d-xxxxxxxxxxxxxxxxxxxx\n", i)
+			}
+			sb.WriteString("- second\n  - k\n")
+			docs = append(docs, sb.String())
+		}
 		// every forest with n <= maxN nodes over {a,b}, canonical spelling
 		for n := 1; n <= maxN; n++ {
 			enum.DepthSeqs(n, func(d []int) {
